@@ -66,6 +66,10 @@ def run(ctx):
     # clauses of C12, speed-limited simulation) is necessary here too
     from . import C12
     C12.run(RuleProxy(ctx, {k: 'C03-8.position' for k in ('C12-1.time', 'C12-2.offset', 'C12-3.rear', 'C12-6.init')}, key_filter=lambda k: not k.startswith('SetSpeedTrainSim')))
+    from .common import step_protocol
+    step_protocol(ctx, 'C03-3.controller', 'SpeedLimitTrainSim::solve_step', [
+        ('set_pwr_aux', 'set_cur_pwr_max_out'), ('set_cur_pwr_max_out', 'solve_required_pwr'), ('update_res', 'solve_required_pwr'),
+        ('solve_required_pwr', 'solve_energy_consumption')])
     anchor(ctx)
     rebuild(ctx)
     controller(ctx)
